@@ -19,6 +19,7 @@ use crate::{
 };
 
 const SERVER: usize = 0;
+static RESETS: std::sync::atomic::AtomicU64 = std::sync::atomic::AtomicU64::new(0);
 
 #[derive(Clone, Debug)]
 pub struct Scn {
@@ -90,6 +91,7 @@ pub struct Out {
     pub trace: u64,
     pub viol: Vec<(String, String)>,
     pub routed_checked: u64,
+    pub resets_sent: u64,
 }
 
 pub fn run(base: Instant, s: &Scn, devs: &Devs, alts: &[Fate], dump: bool) -> Out {
@@ -166,6 +168,7 @@ pub fn run(base: Instant, s: &Scn, devs: &Devs, alts: &[Fate], dump: bool) -> Ou
         // ---- forgotten connections: once the server endpoint has drained a connection, none of
         // the connection IDs that connection ever had may route anywhere. One datagram per
         // (connection, destination CID) is presented again.
+        let oracle_upto = m.w.recs.len();
         let mut stale = vec![];
         {
             let dead_serials: Vec<u64> = m.w.nodes[SERVER].dead.iter().map(|(_, sl)| sl.serial).collect();
@@ -214,11 +217,65 @@ pub fn run(base: Instant, s: &Scn, devs: &Devs, alts: &[Fate], dump: bool) -> Ou
                 }
             }
         }
-        (m, closed, stale)
+        // ---- stateless resets belong to connections too: for every client connection still alive,
+        // the server's stateless reset for the connection ID that connection uses must reach exactly
+        // that connection (whatever happened to its neighbours on the same endpoint meanwhile)
+        let pre_lost: Vec<bool> = m.conns.iter().map(|(n, ch)| m.w.slot(*n, *ch).map_or(true, |sl| !sl.app.obs.lost.is_empty())).collect();
+        let mut reset_viol = vec![];
+        let mut resets_sent = 0u64;
+        {
+            // let closed connections finish draining at their own endpoint first
+            let limit = m.w.t + Duration::from_secs(10);
+            let mut g = 0;
+            while g < 4000 && closed.iter().any(|ci| m.w.nodes[m.conns[*ci].0].conns.contains_key(&m.conns[*ci].1)) {
+                g += 1;
+                match m.w.next_event() {
+                    Some((at, _)) if at <= limit => {
+                        m.w.step();
+                    }
+                    _ => break,
+                }
+            }
+            let srv_seed = m.w.nodes[SERVER].seed;
+            let srv_addr = m.w.nodes[SERVER].addr;
+            for i in 0..m.conns.len() {
+                let (n, ch) = m.conns[i];
+                if closed.contains(&i) || pre_lost[i] {
+                    continue;
+                }
+                let Some(sl) = m.w.nodes[n].conns.get(&ch) else { continue };
+                if sl.conn.is_handshaking() || sl.conn.is_closed() {
+                    continue;
+                }
+                let cid = sl.conn.verif_probe().rem_cid;
+                if cid.is_empty() {
+                    continue;
+                }
+                let tok = crate::sim::reset_token_for(srv_seed, &cid);
+                let mut d: Vec<u8> = (0..30).map(|k| 0x40 | ((k * 7 + i) as u8 & 0x3f)).collect();
+                d.extend_from_slice(&tok);
+                let dst = m.w.nodes[n].addr;
+                let others_before: Vec<usize> = (0..m.conns.len()).filter(|j| *j != i).map(|j| m.w.slot(m.conns[j].0, m.conns[j].1).map_or(0, |s| s.app.obs.lost.len())).collect();
+                let seq = m.w.seq;
+                m.w.seq += 1;
+                let at = m.w.t;
+                m.w.deliver(crate::sim::Flight { at, seq, idx: u64::MAX, src: srv_addr, dst, ecn: None, data: d, injected: true });
+                resets_sent += 1;
+                let got = m.w.slot(n, ch).map_or(vec![], |s| s.app.obs.lost.iter().map(|e| format!("{e:?}")).collect::<Vec<_>>());
+                if !got.iter().any(|l| l.contains("Reset")) {
+                    reset_viol.push(("stateless-reset-not-routed".into(), format!("client connection {i} (node{n}, remote CID {cid:02x?}): the server's stateless reset for that CID did not reach it (lost={got:?})")));
+                }
+                let others_after: Vec<usize> = (0..m.conns.len()).filter(|j| *j != i).map(|j| m.w.slot(m.conns[j].0, m.conns[j].1).map_or(0, |s| s.app.obs.lost.len())).collect();
+                if others_before != others_after {
+                    reset_viol.push(("stateless-reset-hit-other-connection".into(), format!("the stateless reset for client connection {i} ended another connection")));
+                }
+            }
+        }
+        (m, closed, stale, pre_lost, reset_viol, resets_sent, oracle_upto)
     });
     match r {
-        Err(e) => Out { points: 0, trace: 0, viol: vec![("panic".into(), format!("panic: {e}"))], routed_checked: 0 },
-        Ok((m, closed, stale)) => {
+        Err(e) => Out { points: 0, trace: 0, viol: vec![("panic".into(), format!("panic: {e}"))], routed_checked: 0, resets_sent: 0 },
+        Ok((m, closed, stale, pre_lost, reset_viol, resets_sent, oracle_upto)) => {
             if dump {
                 print!("{}", crate::trace::dump(&m.w));
             }
@@ -233,7 +290,8 @@ pub fn run(base: Instant, s: &Scn, devs: &Devs, alts: &[Fate], dump: bool) -> Ou
             let mut to_server: BTreeMap<(usize, usize), ConnectionHandle> = BTreeMap::new();
             let mut server_serial_of: BTreeMap<(usize, usize), u64> = BTreeMap::new();
             let mut checked = 0u64;
-            for r in &m.w.recs {
+            // (the probes after the end of the scenario replay old datagrams on purpose)
+            for r in &m.w.recs[..oracle_upto] {
                 match r {
                     Rec::Emit { idx, node, serial, ch, .. } => {
                         emitted.insert(*idx, (*node, *serial, *ch));
@@ -273,7 +331,7 @@ pub fn run(base: Instant, s: &Scn, devs: &Devs, alts: &[Fate], dump: bool) -> Ou
                 if closed.contains(&i) {
                     continue;
                 }
-                if !sl.app.obs.lost.is_empty() {
+                if pre_lost[i] {
                     viol.push(("bystander-lost".into(), format!("client connection {i} (never closed by anyone) was lost: {:?}", sl.app.obs.lost)));
                 } else if !(sl.app.tx_complete() && sl.app.obs.connected) {
                     viol.push(("bystander-incomplete".into(), format!("client connection {i} did not complete its transfer (connected={}, tx={:?})", sl.app.obs.connected, sl.app.obs.tx.values().map(|t| (t.written, t.finished_events)).collect::<Vec<_>>())));
@@ -293,8 +351,10 @@ pub fn run(base: Instant, s: &Scn, devs: &Devs, alts: &[Fate], dump: bool) -> Ou
                     }
                 }
             }
+            RESETS.fetch_add(resets_sent, std::sync::atomic::Ordering::Relaxed);
+            viol.extend(reset_viol);
             viol.truncate(6);
-            Out { points: m.w.emitted, trace: m.w.trace_hash(), viol, routed_checked: checked }
+            Out { points: m.w.emitted, trace: m.w.trace_hash(), viol, routed_checked: checked, resets_sent }
         }
     }
 }
@@ -377,7 +437,7 @@ pub fn main(args: &Args) -> ! {
     let dl = deadline(if thorough { 1500 } else { 50 });
     let k = 2;
     let alts: &[Fate] = if thorough { &FATE_ALTS } else { &FATE_ALTS3 };
-    rep.rule = format!("E2 on one real server endpoint with three (later four) concurrent client connections from two or three client endpoints, each sending a transfer of a different length: every execution with <=k={k} deviations over the fate alphabet {alts:?} in the scenario's window, for CID lengths 0/1/4/8/20, CID rotation every 200 ms, clients calling local_address_changed at several points, connections closed at each listed step with a fourth connection opened afterwards (slab slot and handle reuse). Oracle on EVERY Endpoint::handle call (harness log): the connection handle the datagram is routed to is the one paired with the connection that produced it (pairing learnt from the NewConnection returned for its first Initial), never another one, also after draining and handle reuse; every connection that nobody closed completes, the server side obtains exactly that connection's byte count, and no application sees foreign or corrupted data. A second part checks CID exhaustion with one-byte CIDs. Non-trivial = trace differs from the scenario's baseline; distinct = distinct trace hashes.");
+    rep.rule = format!("E2 on one real server endpoint with three (later four) concurrent client connections from two or three client endpoints, each sending a transfer of a different length: every execution with <=k={k} deviations over the fate alphabet {alts:?} in the scenario's window, for CID lengths 0/1/4/8/20, CID rotation every 200 ms, clients calling local_address_changed at several points, connections closed at each listed step with a fourth connection opened afterwards (slab slot and handle reuse). Oracle on EVERY Endpoint::handle call (harness log): the connection handle the datagram is routed to is the one paired with the connection that produced it (pairing learnt from the NewConnection returned for its first Initial), never another one, also after draining and handle reuse; at the end of every execution the server's stateless reset for the connection ID each surviving client connection uses must end exactly that connection; every connection that nobody closed completes, the server side obtains exactly that connection's byte count, and no application sees foreign or corrupted data. A second part checks CID exhaustion with one-byte CIDs. Non-trivial = trace differs from the scenario's baseline; distinct = distinct trace hashes.");
     let scs = scenarios(thorough);
     let mut total = 0u64;
     let mut routed = 0u64;
@@ -423,7 +483,7 @@ pub fn main(args: &Args) -> ! {
         }
     }
     rep.exhaustive = !capped_any;
-    rep.part("e2_multi_connection", json!({"k": k, "scenarios": scs.len(), "executions": total, "handle_calls_checked": routed, "capped": capped_any, "per_scenario": per}));
+    rep.part("e2_multi_connection", json!({"k": k, "scenarios": scs.len(), "executions": total, "handle_calls_checked": routed, "stateless_resets_probed": RESETS.load(std::sync::atomic::Ordering::Relaxed), "capped": capped_any, "per_scenario": per}));
     if routed == 0 {
         machinery("vacuity guard: no routed delivery was checked");
     }
